@@ -11,7 +11,7 @@ def main():
     from vmon.props import c17
 
     harness.setup(with_contracts=False)
-    print(json.dumps([c17.outcome_of(j["text"], j.get("want")) for j in job]))
+    print(json.dumps([c17.outcome_of(j["text"], j.get("want"), j.get("path_bytes_hex")) for j in job]))
 
 
 main()
